@@ -113,7 +113,7 @@ class C01(Check):
                     f = roundtrip(c, spec, modname, name, ty, v, codec, ne, rec)
                     if f is not None:
                         rec.fail(f)
-                    elif rec.evaluations % 97 == 0:
+                    elif len(rec.samples) < 2 or rec.evaluations % 97 == 0:
                         rec.sample({'codec': codec, 'numeric_enums': ne, 'type': name,
                                     'module_text': spec.text(), 'value': jsonio.enc(v)})
         hyp_run(strat, body, seed, n, rec, shrink=shard.get('_shrink', False),
